@@ -217,7 +217,7 @@ def obligations(tier, seed):
                                "pre_dispatch": 2}, "timeout": 600 if tier == "quick" else 3400,
                     "bounds": "call 0: 6 tasks, failing task at any index; <=%d pre-emptions anywhere; 2x2 completion picks; "
                               "call 1: 1 or 4 tasks on the same object" % K})
-    for be, ra in [("threading", "list"), ("loky", "generator"), ("stub_legacy", "list")]:
+    for be, ra in [("threading", "list"), ("loky", "generator"), ("stub_legacy", "list"), ("stub_noabort", "list")]:
         obs.append({"name": "iterfail/%s/%s" % (be, ra), "fn": "ob_iterfail", "mode": "S",
                     "params": {"backend": be, "return_as": ra, "n0": 8}, "timeout": 600,
                     "bounds": "iterator raises at item 0..6 of 8; one pre-emption anywhere; then a 3-task call"})
